@@ -105,7 +105,17 @@ DoAdvance ==
   /\ last' = [kind |-> "advance"]
   /\ acked' = [p \in Pairs |-> IF H'.S.imm[p[1]][p[2]].st = "absent" THEN {} ELSE acked[p]]
 
-Next == DoRequest \/ DoAdvance
+\* more than a lease duration passes and the lease checker runs: whatever was stored is gone, and what is stored
+\* afterwards (possibly under another write enabler) is protected like any other share
+DoExpire ==
+  /\ nops < MaxOps
+  /\ H.S.clock < 3000
+  /\ nops' = nops + 1
+  /\ H' = HExpire(H, LeaseDuration + 1300)
+  /\ last' = [kind |-> "expire"]
+  /\ acked' = [p \in Pairs |-> IF H'.S.imm[p[1]][p[2]].st = "absent" THEN {} ELSE acked[p]]
+
+Next == DoRequest \/ DoAdvance \/ DoExpire
 Spec == Init /\ [][Next]_vars
 
 (* ------------------------------ properties ------------------------------ *)
